@@ -282,9 +282,34 @@ def phylo_operators(rng, mix, adapt):
     return ops
 
 
+def origin_target(tseed):
+    """A chain STARTED where the target vanishes: r = |u| ~ Gamma(2, 1) with u = 0 (log density -inf, not NaN), next to
+    an ordinary normal block.  From such a state every proposal with a positive density is accepted with probability
+    one (the ratio is +inf), a proposal that leaves u at 0 has density -inf again and is rejected."""
+    rng = random.Random(tseed)
+    objs = [
+        TP("r", "torch.distributions.AbsTransform", P("u", [0.0])),
+        P("b", [round(rng.uniform(-1, 1), 3), round(rng.uniform(-1, 1), 3)]),
+        {"id": "joint", "type": "JointDistributionModel", "distributions": [
+            dist("prior.r", "Gamma", "r", concentration=2.0, rate=1.0),
+            dist("prior.b", "Normal", "b", loc=0.0, scale=1.0)]},
+    ]
+    return dict(name="origin", objs=objs, joint="joint", leaves=["u", "b"], watch=["r"])
+
+
+def origin_operators(rng, mix, adapt):
+    da = not adapt
+    return [{"id": "op.sliding", "type": "SlidingWindowOperator", "parameters": ["u"], "weight": 1.0,
+             "width": round(rng.uniform(0.8, 2.0), 3), "target_acceptance_probability": 0.24, "disable_adaptation": da},
+            {"id": "op.sliding_b", "type": "SlidingWindowOperator", "parameters": ["b"], "weight": 1.0,
+             "width": round(rng.uniform(0.3, 1.0), 3), "target_acceptance_probability": 0.24, "disable_adaptation": da}]
+
+
 def make_target(spec):
     if spec["target"] == "toy":
         return toy_target(spec["tseed"])
+    if spec["target"] == "origin":
+        return origin_target(spec["tseed"])
     return phylo_target(spec["target"] == "phylo-cli")
 
 
@@ -292,6 +317,8 @@ def make_operators(spec):
     rng = random.Random(spec["oseed"])
     if spec["target"] == "toy":
         return toy_operators(rng, spec["mix"], spec["adapt"])
+    if spec["target"] == "origin":
+        return origin_operators(rng, spec["mix"], spec["adapt"])
     return phylo_operators(rng, spec["mix"], spec["adapt"])
 
 
@@ -322,6 +349,7 @@ def plan(tier, seed):
     for k, ad in (("scaler", True), ("sliding", False), ("dirichlet", True), ("hmc", True),
                   ("scaler_rev", False)):
         add("toy", [k], ad, n(100, 400), 1)
+    add("origin", ["sliding", "sliding_b"], False, n(40, 200), 1)
     add("phylo", ["sliding_cli", "block", "dirichlet", "scaler", "hmc"], True, n(200, 1500), 1)
     add("phylo", ["sliding_cli", "block", "dirichlet", "hmc"], False, n(100, 600), 5)
     add("phylo-cli", ["sliding_cli", "block"], True, n(120, 600), 1)
@@ -879,6 +907,10 @@ def check_run(ri, run, fresh):
         if finite and math.isfinite(pi_b):
             la = (pi_p - pi_b) + h
             ap = math.exp(min(0.0, la))
+            d["la_ref"] = la
+        elif finite and pi_b == -math.inf:
+            # the current state has density zero, the proposal does not: the ratio is +inf, the move is accepted
+            la, ap = math.inf, 1.0
             d["la_ref"] = la
         else:
             ap = 0.0
